@@ -78,6 +78,28 @@ def sv_coq(v):
   raise PC.Unmodelled(repr(v))
 
 
+def check_oracle_agrees(text):
+  """oracle_agrees_with_decode, on the real side: for every prefix of every run of adjacent str literals in the text,
+  ast.literal_eval of the blank-joined texts (what gin's parser asks) is the concatenation of the separately decoded
+  literals (StrLit.decode_str_literals).  Returns the number of prefixes checked."""
+  runs, cur = [], []
+  for t in tokenize.generate_tokens(io.StringIO(text).readline):
+    if t.type == tokenize.STRING and t.string[0] not in 'bB':
+      cur.append(t.string)
+    elif t.type in (tokenize.NL, tokenize.COMMENT):
+      continue
+    else:
+      if cur:
+        runs.append(cur)
+      cur = []
+  n = 0
+  for run in runs:
+    for k in range(1, len(run) + 1):
+      assert ast.literal_eval(' '.join(run[:k])) == ''.join(ast.literal_eval(x) for x in run[:k]), run[:k]
+      n += 1
+  return n
+
+
 def has_nan(v):
   if isinstance(v, float):
     return v != v or v in (float('inf'), float('-inf'))
@@ -100,7 +122,7 @@ def main():
   bad_total = 0
   for seed in [int(s) for s in a.seeds.split(',')]:
     rng = random.Random(seed)
-    cases, sk_bytes, sk_ascii, nsplit, nparen = [], 0, 0, 0, 0
+    cases, sk_bytes, sk_ascii, nsplit, nparen, nruns = [], 0, 0, 0, 0, 0
     while len(cases) < a.n:
       v = gen_value(rng, rng.choice([0, 0, 1, 1, 2, 2, 3]), top=True)
       w = rng.choice(PC.WIDTHS)
@@ -113,6 +135,7 @@ def main():
         continue
       if not has_nan(v):
         assert ast.literal_eval(real) == v, (v, real)          # adjacent literals concatenate to the value
+      nruns += check_oracle_agrees(real)
       split = real != PC.NoSplit(width=w).pformat(v)
       nsplit += split
       nparen += split and isinstance(v, str)
@@ -121,8 +144,8 @@ def main():
       oks = PC.evaluate(a.coq, ['String.eqb (pformat_s %d %s) %s' % (w, sv_coq(v), PC.cstr(real)) for v, w, real in cases], wd, 'cases', a.jobs)
       bad = [c for c, ok in zip(cases, oks) if not ok]
       model = PC.evaluate(a.coq, ['pformat_s %d %s' % (w, sv_coq(v)) for v, w, _ in bad], wd, 'bad', a.jobs, 'string') if bad else []
-    print('seed %d: cases %d (skipped: %d bytes split, %d non-ASCII; 0 skipped for split strs); with a split str %d (of which top-level, parenthesised %d); multi-line %d; DISAGREE %d' %
-          (seed, len(cases), sk_bytes, sk_ascii, nsplit, nparen, sum('\n' in r for _, _, r in cases), len(bad)))
+    print('seed %d: cases %d (skipped: %d bytes split, %d non-ASCII; 0 skipped for split strs); with a split str %d (of which top-level, parenthesised %d); multi-line %d; oracle_agrees_with_decode checked on %d run prefixes; DISAGREE %d' %
+          (seed, len(cases), sk_bytes, sk_ascii, nsplit, nparen, sum('\n' in r for _, _, r in cases), nruns, len(bad)))
     for (v, w, real), m in zip(bad[:10], model[:10]):
       print('  DISAGREE width=%d value=%r\n    cpython: %r\n    model:   %r' % (w, v, real, m))
     bad_total += len(bad)
